@@ -7,7 +7,7 @@ import Solvor.Pack.Model
                 doubles handed to Python; capFeas/capOpt = capacity plus/minus the documented tolerance)
   wBits/vBits/capBits : the same doubles as bit patterns (Float mirror)
   reply `[status|"ValueError", sel, objectiveBits, fallback, lossless, intCap,   -- Float mirror of solve_knapsack
-          bestOpt|null, bestStrict|null,                 -- knapBest of (±values) at capOpt / capStrict
+          bestOpt|null, bestStrict|null,                 -- knapBest of (±values) at capOpt / capStrict (n ≤ 20)
           [chkSel@capFeas, chkKnapsack@capFeas, selWeight, selValue] | null,  -- verified checkers on the implementation's answer
           [dpSel, dpValue] | null]`                      -- proved DP (ratOps) when weights/capacity are integers
 
@@ -46,7 +46,7 @@ def handleKnap (wR vR : List Rat) (caps : List Rat) (wB vB : List Nat) (capB : N
   let sign : Rat := if minimize then -1 else 1
   let items := wR.zip vR
   let sitems := wR.zip (vR.map (sign * ·))
-  let ok := wR.length = vR.length
+  let ok := wR.length = vR.length && decide (wR.length ≤ 20)   -- the 2^n enumeration only for small n
   let bestO := if ok then knapBest sitems capO else none
   let bestS := if ok then knapBest sitems capS else none
   let chk : Val := match implSel, implObj with
@@ -54,7 +54,7 @@ def handleKnap (wR vR : List Rat) (caps : List Rat) (wB vB : List Nat) (capB : N
         Val.ofRat (selW items s), Val.ofRat (selV items s)]
     | _, _ => Val.null
   let dp : Val :=
-    if ok && wR.all isNatRat && isNatRat capS && decide (capS.num.toNat ≤ 200000) then
+    if wR.length = vR.length && wR.all isNatRat && isNatRat capS && decide (capS.num.toNat ≤ 200000) then
       let r := knapInt ratOps ((wR.map (·.num.toNat)).zip (vR.map (sign * ·))) capS.num.toNat
       Val.arr [Val.ofNats r.1, Val.ofRat r.2]
     else Val.null
